@@ -134,10 +134,30 @@ class Parameters:
             return croniter(self.delay.cron, now).get_next(ret_type=datetime)  # type: ignore[no-any-return]
         return None
 
+    @property
+    def _next_periodic_execution_time(self) -> Union[datetime, None]:
+        """Next execution time of a job which is rescheduled after it has run.
+
+        `defer_by` slots are counted from the time the job was last scheduled for, not from
+        `timestamp` (which is moved to `now` on every reschedule) - otherwise the slots drift and
+        two consecutive runs can be scheduled much less than one period apart.
+        """
+        if self.delay.defer_by is None:
+            return self.compute_next_execution_time
+        now = datetime.now()
+        base = self.delay.next_execution_time
+        if base is None:
+            base = self.timestamp
+            if self.delay.delay_until is not None and self.delay.delay_until > base:
+                base = self.delay.delay_until
+        if base > now:
+            return base
+        return base + self.delay.defer_by * ((now - base) // self.delay.defer_by + 1)
+
     def _prepare_reschedule(self) -> "Parameters":
         copy = deepcopy(self)
         object.__setattr__(copy.retries, "already_tried", 0)
-        object.__setattr__(copy.delay, "next_execution_time", self.compute_next_execution_time)
+        object.__setattr__(copy.delay, "next_execution_time", self._next_periodic_execution_time)
         object.__setattr__(copy, "timestamp", datetime.now())
         return copy
 
